@@ -1266,17 +1266,30 @@ impl<'t> World<'t> {
                         let hs: Vec<RegLan> = st.l.iter().map(|&x| pool0[x as usize % pool0.len()]).collect();
                         let text: Vec<u32> = st.s.iter().map(|&c| alpha.single(c % BAD_BASE)).collect();
                         let kind = st.a[0] % 4;
+                        let style = (st.a[0] / 4) % 2;
                         guarded(|| {
-                            let it = hs.iter().map(|&h| {
-                                let s = smt::str_to_re(&smt_str(&text));
-                                smt::re_concat(h, s)
-                            }).chain(std::iter::once_with(|| smt::str_to_re(&smt_str(&text))));
-                            match kind {
-                                0 => smt::re_concat_list(it),
-                                1 => smt::re_union_list(it),
-                                2 => smt::re_inter_list(it),
-                                _ => smt::re_diff_list(hs.first().copied().unwrap_or(pool0[0]), it),
-                            };
+                            if style == 0 {
+                                // every element is computed by nested wrapper calls
+                                let it = hs.iter().map(|&h| {
+                                    let s = smt::str_to_re(&smt_str(&text));
+                                    smt::re_concat(h, s)
+                                }).chain(std::iter::once_with(|| smt::str_to_re(&smt_str(&text))));
+                                match kind {
+                                    0 => smt::re_concat_list(it),
+                                    1 => smt::re_union_list(it),
+                                    2 => smt::re_inter_list(it),
+                                    _ => smt::re_diff_list(hs.first().copied().unwrap_or(pool0[0]), it),
+                                };
+                            } else {
+                                // ordinary elements followed by one that is built lazily
+                                let it = hs.iter().copied().chain(std::iter::once_with(|| smt::str_to_re(&smt_str(&text))));
+                                match kind {
+                                    0 => smt::re_concat_list(it),
+                                    1 => smt::re_union_list(it),
+                                    2 => smt::re_inter_list(it),
+                                    _ => smt::re_diff_list(hs.first().copied().unwrap_or(pool0[0]), it),
+                                };
+                            }
                         })
                     }
                 };
